@@ -76,6 +76,15 @@ func genC17(seed uint64, r *rng.Rand) *Plan {
 		p.Faults = append(p.Faults, &Fault{On: "exec", N: at, Act: "abort", Server: g.R.Intn(p.Layout.Servers), Rule: &hb.Rule{Class: hb.FatalClasses[g.R.Intn(len(hb.FatalClasses))]}})
 	case "never-online":
 		p.Faults = append(p.Faults, &Fault{On: "exec", N: at, Act: "opening", Table: ts.Name, Region: g.R.Intn(3)})
+		if g.R.Chance(0.5) {
+			// the table's regions are looked up as a whole, repeatedly, while one of
+			// them is cached and being re-established: that adds no establisher
+			var ops []Op
+			for i, n := 0, g.R.Range(2, 4); i < n; i++ {
+				ops = append(ops, Op{Kind: "sleep", MS: g.R.Range(5, 120)}, Op{Kind: "cache", Table: ts.Name})
+			}
+			p.Tasks = append(p.Tasks, Task{Ops: ops})
+		}
 	case "meta-silent":
 		p.Faults = append(p.Faults, &Fault{On: "exec", N: at, Act: "silent", Server: p.Layout.Meta})
 	case "meta-down":
